@@ -373,9 +373,8 @@ func (d *modelDP) dump() map[string]string {
 	for id, mem := range d.ipsets {
 		out["ipset|"+id] = fmt.Sprintf("type=%v members=%s", d.ipsetTy[id], strings.Join(sortedKeys(mem), ","))
 	}
-	if d.inSync {
-		out["insync|"] = "true"
-	}
+	// (Whether in-sync was emitted is not part of the described state: the asynchronous wrapper emits it, the
+	// bare sequencer does not; the asynchronous mode checks it separately.)
 	return out
 }
 
